@@ -384,6 +384,71 @@ let run_d args =
       end in
     String.concat " ; " (per @ [recd])
 
+(* ------------------------------------------------------------------------------------------ *)
+(* `Z` / `W` (C16): serialization round trips and rejection *)
+let serde_checked = ref true      (* the deserializer checks the nesting (after the fix of F7) *)
+
+let needs_escape (t : text) = List.exists (fun c -> let c = int_of_n c in c = 34 || c = 92 || c < 32) t
+
+let mode_of (m : string) (evs : sev list) : input_mode =
+  match m with
+  | "str" | "slice" ->
+    if List.exists (function SvTok (_, t) -> needs_escape t | _ -> false) evs then MBorrowedEscaped else MBorrowedPlain
+  | _ -> MOwned
+
+let describe_deser evs data mode =
+  match deser_tree static_text hash0 (threshold ()) !debug !serde_checked serde_token_text_ty (mode_of mode evs) evs with
+  | DErr -> "ERR"
+  | DPanic p -> "PANIC:" ^ panic_code p
+  | DOk ((g, strs), flags) ->
+    (match attach flags data with
+     | None -> "ERR"
+     | Some ds ->
+       let buf = Buffer.create 64 in dump_green strs buf g;
+       Buffer.contents buf ^ " data=" ^ String.concat "," (List.map (function Some d -> string_of_int (int_of_n d) | None -> "-") ds))
+
+(* gelem -> dtree with the data flags assigned to the nodes in preorder *)
+let to_dtree strs g (flags : bool list) : dtree =
+  let idx = ref 0 in
+  let rec go g = match g with
+    | GTok (_, k, key, _) -> DTok (k, (match tok_text static_text strs k key with Some t -> t | None -> []))
+    | GNode (_, k, _, _, cs) ->
+      let i = !idx in incr idx;
+      let d = if (match List.nth_opt flags i with Some b -> b | None -> false) then Some (n_of_int (100 + i)) else None in
+      let kids = List.map go cs in
+      DNode (k, d, kids) in
+  go g
+
+let run_z args =
+  match args with
+  | form :: mode :: rest ->
+    let (evtoks, fl) = (let rec split acc = function [] -> (List.rev acc, []) | "|" :: r -> (List.rev acc, r) | x :: r -> split (x :: acc) r in split [] rest) in
+    let flags = match fl with [f] -> List.init (String.length f) (fun i -> f.[i] = '1') | _ -> [] in
+    (match build_in empty_cache evtoks with
+     | None -> "BUILD-PANIC"
+     | Some (g, c) ->
+       let t = to_dtree c.c_strs g flags in
+       let with_data = (form = "data" || form = "rdata") in
+       let evs = ser_events with_data t in
+       let data = if with_data then ser_data t else [] in
+       describe_deser evs data mode)
+  | _ -> "BAD-CASE"
+
+let run_w args =
+  match args with
+  | mode :: rest ->
+    let (evtoks, data) = (let rec split acc = function [] -> (List.rev acc, []) | "|" :: r -> (List.rev acc, r) | x :: r -> split (x :: acc) r in split [] rest) in
+    let evs = List.map (fun e ->
+        let c = e.[0] and r = String.sub e 1 (String.length e - 1) in
+        let (a, b) = match String.index_opt r ':' with
+          | Some i -> (String.sub r 0 i, String.sub r (i + 1) (String.length r - i - 1)) | None -> (r, "") in
+        match c with
+        | 'e' -> SvEnter (n_of_int (int_of_string a), b = "1")
+        | 't' -> SvTok (n_of_int (int_of_string a), parse_text b)
+        | _ -> SvLeave) evtoks in
+    describe_deser evs (List.map (fun d -> n_of_int (int_of_string d)) data) mode
+  | _ -> "BAD-CASE"
+
 let run_line line =
   match List.filter (fun s -> s <> "") (String.split_on_char ' ' line) with
   | [] -> ""
@@ -394,6 +459,8 @@ let run_line line =
   | "Y" :: args -> run_y args
   | "I" :: args -> run_i args
   | "Q" :: args -> run_q args
+  | "Z" :: args -> run_z args
+  | "W" :: args -> run_w args
   | "N" :: args -> run_n args
   | "P" :: _ -> "ok"
   | "L" :: args -> run_h args ^ " || leak 0"
